@@ -132,7 +132,7 @@ def run_case(rng, f, Z, o, tier):
         res["judged"] = True
         # the ends of the stated ranges are always exercised, the interior is sampled
         variants = [("z", 2.0 ** 20), ("z", 2.0 ** -20), ("z", 2.0 ** rng.randint(-20, 20)), ("z", 10 ** rng.uniform(-6, 6)),
-                    ("f", 2.0 ** 20), ("f", 2.0 ** -20), ("f", 2.0 ** 10), ("f", 2.0 ** -10), ("f", 2.0 ** rng.randint(-20, 20)), ("f", 10 ** rng.uniform(-6, 6)), ("order", 1.0)]
+                    ("f", 2.0 ** 20), ("f", 2.0 ** -20), ("f", 2.0 ** 10), ("f", 2.0 ** -10), ("f", 2.0 ** rng.randint(-20, 20)), ("f", 10 ** rng.uniform(-6, 6)), ("order", 1.0), ("sweeps", float(rng.randint(2, max(2, len(f) - 2))))]
         for variant, factor in variants:
             sb = sentinel_bound(o, f, Z)
             # the series capacitance / inductance columns (1/w, w) are not rescaled by the implementation, so a frequency factor
@@ -149,6 +149,19 @@ def run_case(rng, f, Z, o, tier):
             elif variant == "f":
                 r1 = kk_run(factor * f, Z, o)
                 sb = max(sb, sentinel_bound(o, factor * f, Z))
+            elif variant == "sweeps":
+                # the same points supplied as two concatenated sweeps (neither ascending nor descending): results per point are the same
+                k_ = max(1, min(len(f) - 1, int(factor)))
+                f2, Z2 = np.concatenate([f[k_:], f[:k_]]), np.concatenate([Z[k_:], Z[:k_]])
+                rr = kk_run(f2, Z2, o)
+                f1 = np.asarray(rr.get_frequencies())
+                idx = [int(np.argmin(abs(f1 - x))) for x in np.asarray(r0.get_frequencies())]
+
+                class _Aligned:
+                    residuals = np.asarray(rr.residuals)[idx]
+                    pseudo_chisqr = rr.pseudo_chisqr
+                    circuit = rr.circuit
+                r1 = _Aligned
             else:
                 r1 = kk_run(f[::-1].copy(), Z[::-1].copy(), o)
             for p in compare(o, r0, r1, variant, factor, tol_v, sb):
